@@ -37,7 +37,7 @@ RTOL_SUB = 1e-8
 TOL_EIG = 1e-6
 # CEC residual ||W c - lambda_max c||_inf: the power iteration stops when two successive
 # normalised iterates differ by <= tol = 1e-12 in L2; then the residual is about lambda_max *
-# 1e-12 (lambda_max <= 40 here).  MEASURED on the unchanged library with the arguments below:
+# 1e-12 (lambda_max <= 40 in the cec clause, up to about 90 in cec_slow: measured residual <= 2e-11).  MEASURED on the unchanged library with the arguments below:
 # see ASSUMPTIONS.  With the library's default tol=1e-7 the residual is 1e-8..1e-6.
 TOL_CEC = 1e-9
 TOL_NORM = 1e-9   # normalisation is one division by the norm: a few ulps
